@@ -503,6 +503,10 @@ def _prove_core(dom, hyps, light, g, timeout_ms, use_cvc5):
     from . import ringnf
     if ringnf.identity(g) is True:
         return "unsat", "ringnf(field identity)" + ("+congruence" if lem else ""), None, [], lem
+    from . import elem
+    el = elem.lemmas([g])
+    if el:
+        lem = lem + el
     formulas = hyps + lem + [z3.Not(g)]
     r, m = dom.check(formulas, timeout_ms=timeout_ms)
     if r == "unknown" and use_cvc5:
@@ -557,7 +561,7 @@ def discharge(dom, name, hyps, goal, timeout_ms=10000, use_cvc5=True, kind="unbo
                         [str(mm.eval(zconst(e.re), model_completion=True)), str(mm.eval(zconst(e.im), model_completion=True))]
                 except Exception:
                     pass
-        abstract = bool(lem) or bool(find_apps(dom, [g] + hyps))
+        abstract = bool(find_apps(dom, [g] + hyps))
         return Result(name, "refuted", dt, backend, model=model,
                       detail="counter-model%s" % (" (formula contains uninterpreted Sum/DTFT symbols: "
                                                   "model must be confirmed by replay)" if abstract else ""), kind=kind)
